@@ -200,7 +200,7 @@ const VERSIONS: [Option<(i64, &[u8])>; 5] = [None, Some((1, b"a")), Some((2, b"a
 /// mode 0: plain; 1 / 2: the node's own put_mutable of an OLDER item (seq 0) for the same key
 /// is in flight and one / two of the three replicas have already answered its lookup when the
 /// call is made, so the call joins that still-active lookup.
-fn live(assign: &[usize; 3], order: usize, mode: usize, out: &mut Partial) {
+fn live(assign: &[usize; 3], order: usize, mode: usize, sync: bool, out: &mut Partial) {
     use crate::epnet::EpNet;
     use crate::explore::Chooser;
     use crate::sim::*;
@@ -247,7 +247,7 @@ fn live(assign: &[usize; 3], order: usize, mode: usize, out: &mut Partial) {
             }
         }
     };
-    if mode > 0 {
+    if mode == 1 || mode == 2 {
         for e in net.eps.iter_mut() {
             e.store_puts = false;
         }
@@ -277,6 +277,18 @@ fn live(assign: &[usize; 3], order: usize, mode: usize, out: &mut Partial) {
             false
         });
     }
+    w.sync_api = sync;
+    if mode >= 3 {
+        // one (mode 3) or two (mode 4) earlier callers use the `get_mutable(..).next()` pattern:
+        // they take the first item and drop their stream while the lookup is still running
+        let firsts: Vec<usize> = (0..mode - 2).map(|_| w.call_get_mutable_first(a, pk, None)).collect();
+        let h = w.now + 30 * SEC;
+        w.run_until(h, |w, ev| {
+            pump(w, &mut net, ev, &rank);
+            firsts.iter().all(|c| w.result(*c).is_some())
+        });
+        out.add("live_with_dropped_co_callers", 1);
+    }
     let call = w.call_get_mutable_most_recent(a, pk, None);
     let h = w.now + 30 * SEC;
     w.run_until(h, |w, ev| {
@@ -297,7 +309,7 @@ fn live(assign: &[usize; 3], order: usize, mode: usize, out: &mut Partial) {
     out.add("distinct_nontrivial", 1);
     out.add("live_lookups", 1);
     let mut held: Vec<(i64, Vec<u8>)> = assign.iter().filter_map(|a| VERSIONS[*a].map(|(s, v)| (s, v.to_vec()))).collect();
-    if mode > 0 {
+    if mode == 1 || mode == 2 {
         // the node's own in-flight item is an item it has seen
         held.push((0, b"mine (older)".to_vec()));
     }
@@ -305,7 +317,7 @@ fn live(assign: &[usize; 3], order: usize, mode: usize, out: &mut Partial) {
     let got = match w.result(call) {
         Some(CallResult::Mutable(r)) => r.as_ref().map(|i| (i.seq(), i.value().to_vec())),
         other => {
-            out.violation("most-recent/live/no-result", format!("{other:?}"), json!({"part": "live", "assign": assign, "order": order, "mode": mode}));
+            out.violation("most-recent/live/no-result", format!("{other:?}"), json!({"part": "live", "assign": assign, "order": order, "mode": mode, "sync": sync}));
             return;
         }
     };
@@ -320,9 +332,9 @@ fn live(assign: &[usize; 3], order: usize, mode: usize, out: &mut Partial) {
             _ => "some-for-nothing",
         };
         out.violation(
-            format!("most-recent/live/{class}{}", ["", "/own-put-in-flight", "/own-put-in-flight"][mode]),
-            format!("replicas hold {held:?} (arrival order #{order}); get_mutable_most_recent returned {got:?}, expected {want:?}"),
-            json!({"part": "live", "assign": assign, "order": order, "mode": mode}),
+            format!("most-recent/live/{class}{}", ["", "/own-put-in-flight", "/own-put-in-flight", "/co-caller-dropped-its-stream", "/co-caller-dropped-its-stream"][mode]),
+            format!("{}replicas hold {held:?} (arrival order #{order}); get_mutable_most_recent returned {got:?}, expected {want:?}", if sync { "[blocking Dht API] " } else { "" }),
+            json!({"part": "live", "assign": assign, "order": order, "mode": mode, "sync": sync}),
         );
     }
 }
@@ -366,10 +378,10 @@ fn run(tier: Tier, shard: usize, nshards: usize, _seed: u64) -> Partial {
     for c in 0..125usize {
         let assign = [c % 5, (c / 5) % 5, (c / 25) % 5];
         for order in 0..6 {
-            for mode in 0..3 {
+            for (mode, sync) in [(0, false), (1, false), (2, false), (3, false), (4, false), (0, true), (3, true)] {
                 unit += 1;
                 if unit % nshards == shard {
-                    live(&assign, order, mode, &mut merged);
+                    live(&assign, order, mode, sync, &mut merged);
                 }
             }
         }
@@ -389,7 +401,7 @@ fn replay(v: &Value) -> Result<Option<Violation>, String> {
         if a.len() != 3 {
             return Err("assign".into());
         }
-        live(&[a[0], a[1], a[2]], v.get("order").and_then(|o| o.as_u64()).unwrap_or(0) as usize, v.get("mode").and_then(|o| o.as_u64()).unwrap_or(0) as usize, &mut out);
+        live(&[a[0], a[1], a[2]], v.get("order").and_then(|o| o.as_u64()).unwrap_or(0) as usize, v.get("mode").and_then(|o| o.as_u64()).unwrap_or(0) as usize, v.get("sync").and_then(|o| o.as_bool()).unwrap_or(false), &mut out);
         return Ok(out.violations.into_iter().next());
     }
     crate::sim::enter_local(crate::sim::T0, 1);
